@@ -1,9 +1,17 @@
 (* C11 — proofs about the model: re-exports the parts; short proofs of statements of Properties.v. *)
 From Coq Require Import List NArith Bool Lia.
 From V.C11 Require Import Model.
-From V.C11 Require Export PBase PAlt PInv PIso PLedger PTimer PSend.
+From V.C11 Require Export PBase PAlt PInv PIso PLedger PTimer PSend PLazy.
 Import ListNotations.
 Open Scope N_scope.
+
+Lemma WT_reachable c s : reachable c s -> WT s.
+Proof.
+  induction 1 as [|s o s' ev cl R W S].
+  - intros p V. discriminate V.
+  - eapply WT_step; eauto.
+Qed.
+
 
 (* ---- statements of Properties.v whose proofs are a few lines ---- *)
 Lemma C11_alternation_refuted_pf :
@@ -101,3 +109,23 @@ Proof.
   injection X as X1 X2 X3 X4 X5 X6 X7 X8.
   exists s1, s2, s3, ev, cl. subst. repeat split; auto.
 Qed.
+
+Lemma C11_lazy_no_stuck_pf : forall (c : cfg) (cap : nat) (gs : list lop), snd (lrun c cap linit gs) = true.
+Proof. intros. apply lrun_nostuck. apply SInv_init. Qed.
+
+Lemma C11_event_channel_no_loss_pf : forall (c : cfg) (cap : nat) (gs : list lop),
+  ltaken_run c cap linit gs ++ lq (lfinal c cap linit gs) = lemitted_run c cap linit gs.
+Proof. intros. apply (lrun_fifo c cap gs linit). apply SInv_init. Qed.
+
+Lemma C11_capacity_only_delays_pf : forall (c : cfg) (cap1 cap2 : nat) (gs : list lop),
+  never_blocked c cap1 linit gs = true -> never_blocked c cap2 linit gs = true ->
+  map (fun x => (lcore (fst (fst x)), snd (fst x))) (fst (lrun c cap1 linit gs)) =
+  map (fun x => (lcore (fst (fst x)), snd (fst x))) (fst (lrun c cap2 linit gs)) /\
+  snd (lrun c cap1 linit gs) = snd (lrun c cap2 linit gs).
+Proof. intros. apply lrun_cap; auto. Qed.
+
+(* a parked handler: capacity 1, the user does not poll: the OpenFailure of the timer arm waits behind
+   an unread ValidateSubstream, force_close is held back and released by the poll that makes room *)
+Definition w_parked : list lop :=
+  [LOp (Established 0); LOp (Established 1); LOp (SubIn 1); LOp (HsIn 1 true);
+   LOp (CmdOpen 0); LOp (SubOut 0); LOp (HsOut 0 true); LOp (Timer 0); LOp (SubIn 0); LPoll; LPoll].
